@@ -14,7 +14,11 @@ import (
 // sequence so far says the promise is set); one that does not is recorded as blocked and ends the
 // sequence (the goroutine stays parked on that promise, which is dropped).
 func PromiseSeq(w *vt.W, rng *rand.Rand, n int, exhaustive bool) {
+	slow := 0 // Waits that timed out although the calls so far suggest the promise is set: 2 s each
 	run := func(mu, rc, re bool, ops [][2]int) {
+		if slow >= 8 {
+			return // enough of them for a verdict
+		}
 		pr := concurrent.NewPromise(mu, rc, re)
 		out := []vt.Ev{}
 		maybeSet := false
@@ -54,6 +58,9 @@ func PromiseSeq(w *vt.W, rng *rand.Rand, n int, exhaustive bool) {
 					ev["v"], ev["e"] = v, errCode(r.Err)
 				case <-time.After(d):
 					ev["blocked"] = true
+					if maybeSet {
+						slow++
+					}
 				}
 			}
 			out = append(out, ev)
